@@ -46,7 +46,7 @@ func sessionReplay(w *World, e *Encoder, o *Obligation) (src string, ok bool, wh
 	oracle := ""
 	id := o.ID
 	switch {
-	case strings.Contains(id, "C04.") || strings.Contains(id, "C11.match") || strings.Contains(id, "C10.final") || strings.Contains(id, "C10.temporary"):
+	case strings.Contains(id, "C04.") || strings.Contains(id, "C11.match") || strings.Contains(id, "response-counted") || strings.Contains(id, "C10.final") || strings.Contains(id, "C10.temporary"):
 		oracle = "accept"
 	case containsAny(id, "wrapper", ".message", ".rmcp", "C09", ".sent", "terminal", ".seq", ".step", "null-session", "stray"):
 		oracle = "requests"
